@@ -54,6 +54,15 @@ def converse(ctx, prog, rows, where):
         vn = variant_name(prog, r.raw.fields[0])
         for d in acc.decomp(r):
             fwd.append((d['part'], vn))
+    # tokenisation paths that *reject* a complete head (not for lack of input), with what they looked at behind the initial byte
+    fwd_bad = []
+    for r in rows:
+        if r.kind != 'return' or r.result != 'Err' or r.eoi() or r.value not in ('TypeMismatch', 'Message'):
+            continue          # (overflow / UTF-8 errors depend on argument bits and payload the head classes do not fix)
+        pk = [e for e in r.events if e[0] == 'PEEK']
+        for d in acc.decomp(r):
+            cons = r.st.ranges.get(pk[0][1]) if pk else (d['argset'] if d.get('arg') is not None and d['w'] == 1 else None)
+            fwd_bad.append((d['part'], cons, r.value))
     adname = TOKEN.split('<')[0]
     ad = prog.adts[adname]
     inst = prog.one(TENC)
@@ -106,6 +115,28 @@ def converse(ctx, prog, rows, where):
                     covered = iv_norm(covered + tuple(x))
             bad = {fv: iv_norm(tuple(x)) for fv, x in got.items() if fv not in family(vn)}
             key = '%s|%s' % (vn, iv_str(ibs))
+            # the byte behind the initial byte as the encoder writes it (the argument itself, or its most significant byte)
+            nxt = None
+            if len(stream) >= 2:
+                t1 = stream[1]
+                if isinstance(t1, Int):
+                    nxt = ((m.rng(o.st, t1)),)
+                elif isinstance(t1, BeBytes) and isinstance(t1.val, Int) and t1.n:
+                    lo_, hi_ = m.rng(o.st, t1.val)
+                    sh = 8 * (t1.n - 1)
+                    nxt = ((lo_ >> sh, hi_ >> sh),) if lo_ >= 0 else None
+            rejected = None
+            for part, cons, cls in fwd_bad:
+                if not iv_and(part, ibs):
+                    continue
+                if cons is None or nxt is None or iv_and(cons, nxt):
+                    rejected = (iv_and(part, ibs), cons, cls)
+                    break
+            if rejected and not bad:
+                ctx.violation('T-TOKEN.converse', '%s|rejected' % vn, 'token %s (%s) is written as initial byte %s%s, which tokenisation rejects with %s%s: the token does not tokenise back'
+                              % (vn, l1.fmt_cell(o.st), iv_str(rejected[0]), (' followed by %s' % iv_str(nxt)) if nxt else '', rejected[2],
+                                 (' when the next byte is in %s' % iv_str(rejected[1])) if rejected[1] else ''), where)
+                continue
             if bad:
                 for fv, x in sorted(bad.items()):
                     ctx.violation('T-TOKEN.converse', '%s|as=%s' % (vn, fv), 'token %s (%s) is written with initial byte %s, which tokenises as %s: the token does not survive encoding' % (vn, l1.fmt_cell(o.st), iv_str(x), fv), where)
